@@ -854,6 +854,11 @@ def index(base: T, idx: Tuple[T, ...], ranks: Optional[RankEnv] = None) -> T:
         idx = canon_idx(idx)              # array subscripts only: a sequence is indexed by one position
     if isinstance(base, PW):
         return PW([(g, index(v, idx, ranks)) for g, v in base.pieces])
+    if isinstance(base, App) and base.fn == "numpy.linalg.slogdet" and len(idx) == 1 and isinstance(idx[0], Poly) and idx[0].const_value() == -1:
+        idx = (ONE,)                      # slogdet returns (sign, logabsdet): [-1] is [1]
+    if isinstance(base, Attr) and base.name == "clusters" and len(idx) == 1 and isinstance(idx[0], Slc) and idx[0].lo is None and idx[0].step is None \
+            and idx[0].hi is not None and idx[0].hi == length(base):
+        return base                       # clusters[:num_clusters] is the whole cluster list
     if isinstance(base, Rep) and isinstance(base.seq, Lst) and len(base.seq.elems) == 1 and len(idx) == 1 and not isinstance(idx[0], Slc):
         return base.seq.elems[0]                           # ([e] * n)[k] == e for a position k of the list
     if isinstance(base, Range) and len(idx) == 1 and not isinstance(idx[0], Slc):
@@ -1047,6 +1052,8 @@ def make_app(fn: str, args, kw=None) -> T:
     if fn in ("numpy.abs", "numpy.absolute", "builtins.abs") and len(args) == 1:
         return App("abs", args)
     if fn in ("numpy.log", "math.log") and len(args) == 1:
+        if isinstance(args[0], App) and args[0].fn == "float" and len(args[0].args) == 1 and _is_python_int(args[0].args[0]):
+            return App("log", (args[0].args[0],))        # log(float(len(x))) is log(len(x))
         return App("log", args)
     if fn == "builtins.len" and len(args) == 1:
         return length(args[0])
@@ -1253,6 +1260,8 @@ def to_int(x: T) -> T:
     multiple of c."""
     if _is_python_int(x):
         return x
+    if isinstance(x, App) and x.fn in ("numpy.argmin", "numpy.argmax"):
+        return x                        # an index already (used as a subscript and stored in an integer table)
     if isinstance(x, Poly) and len(x.terms) == 1 and x.terms[0][1] == 1 and len(x.terms[0][0]) == 1 and x.terms[0][0][0][1] == 1 \
             and _is_python_int(x.terms[0][0][0][0]):
         return x
